@@ -39,7 +39,7 @@ pub(crate) struct AmendedRequest<Body> {
     request: Request<Option<Body>>,
     uri: Option<Uri>,
     headers: ArrayVec<(HeaderName, HeaderValue), MAX_EXTRA_HEADERS>,
-    unset: ArrayVec<HeaderName, 3>,
+    unset: ArrayVec<HeaderName, 4>,
 }
 
 impl<Body> AmendedRequest<Body> {
